@@ -261,3 +261,36 @@ def forward_paths(fn, init, transfer, edge=None, cap=48, start=None):
 
     IN, OUT = forward(fn, frozenset([init]), T, J, edge=E, start=start)
     return IN, OUT, T
+
+
+def condition_facts(fn, cap=48):
+    """Path-sensitive facts from branch conditions: each fact-set holds tuples
+    (op, lhs_node_text, rhs_text_or_'', frozenset(variable names), lhs_node, rhs_node) known true on that class
+    of paths; a fact dies when one of its variables is assigned.  Returns (IN, T) for states_at."""
+    from .util import strip_casts
+
+    def toks(x):
+        return set(r.name for r in x.walk() if r.k == "ref") if x is not None else set()
+
+    def transfer(st, x):
+        tgt = None
+        if x.k == "asg" and x.kids[0].k == "ref":
+            tgt = x.kids[0].name
+        elif x.k == "vardecl":
+            tgt = x.name
+        elif x.k == "un" and x.op in ("pre++", "post++", "pre--", "post--") and x.kids[0].k == "ref":
+            tgt = x.kids[0].name
+        if tgt:
+            return frozenset(f for f in st if tgt not in f[3])
+        return st
+
+    def edge(st, blk, succ, cond, truth):
+        c = compare_of(cond, truth)
+        if c is None:
+            return st
+        l, op, r = c
+        l = strip_casts(l)
+        r = strip_casts(r) if r is not None else None
+        return st | {(op, l.text(), r.text() if r is not None else "", frozenset(toks(l) | toks(r)), l, r)}
+    IN, OUT, T = forward_paths(fn, frozenset(), transfer, edge=edge, cap=cap)
+    return IN, T
